@@ -581,28 +581,46 @@ proof fn lemma_c03_upto(b1: Seq<u8>, b2: Seq<u8>, sts: Seq<int>, k: int, c: Opti
 
 // ---------------------------------------------------------------- the option builders (context.rs): each option sets exactly its own flag
 //@item! stun_rs :: mod context > struct DecoderContextBuilder
+// #[derive(Default)] of DecoderContext and of the builder, as expanded by rustc: no key, every option off
+impl Default for DecoderContext {
+//@item stun_rs :: mod context > impl ::core::default::Default for DecoderContext > fn default
+//@tags C18 C19
+//@sub "key: ::core::default::Default::default()" => "key: None"
+//@sub "::core::default::Default::default()" => "false" all
+//@spec
+    ensures r.key is None, !r.validation, !r.unknown_data, !r.not_ignore,
+//@end
+}
+impl Default for DecoderContextBuilder {
+//@item stun_rs :: mod context > impl ::core::default::Default for DecoderContextBuilder > fn default
+//@tags C18 C19
+//@sub "::core::default::Default::default()" => "DecoderContext::default()"
+//@spec
+    ensures r.0.key is None, !r.0.validation, !r.0.unknown_data, !r.0.not_ignore,
+//@end
+}
 impl DecoderContextBuilder {
 //@item stun_rs :: mod context > impl DecoderContextBuilder > fn with_key
 //@tags C18 C19 C04
-//@rules R5
+//@rules R5?
 //@spec
     ensures r.0.key == Some(key), r.0.validation == self.0.validation, r.0.unknown_data == self.0.unknown_data, r.0.not_ignore == self.0.not_ignore,
 //@end
 //@item stun_rs :: mod context > impl DecoderContextBuilder > fn with_validation
 //@tags C18 C19
-//@rules R5
+//@rules R5?
 //@spec
     ensures r.0.validation, r.0.key == self.0.key, r.0.unknown_data == self.0.unknown_data, r.0.not_ignore == self.0.not_ignore,
 //@end
 //@item stun_rs :: mod context > impl DecoderContextBuilder > fn with_unknown_data
 //@tags C18 C19
-//@rules R5
+//@rules R5?
 //@spec
     ensures r.0.unknown_data, r.0.key == self.0.key, r.0.validation == self.0.validation, r.0.not_ignore == self.0.not_ignore,
 //@end
 //@item stun_rs :: mod context > impl DecoderContextBuilder > fn not_ignore
 //@tags C18 C19 C09
-//@rules R5
+//@rules R5?
 //@spec
     ensures r.0.not_ignore, r.0.key == self.0.key, r.0.validation == self.0.validation, r.0.unknown_data == self.0.unknown_data,
 //@end
